@@ -5,7 +5,7 @@ import os
 import numpy as np
 
 from mc.oracle import table as T
-from mc.util import fingerprint
+from mc.util import fingerprint, pristine
 
 RULE = (
     "explicit-state BFS over histories of {create(delim,header,k) [= overwrite when the file exists], "
@@ -14,7 +14,9 @@ RULE = (
     "from a fresh file (replay), compared after every step with a reference model (list of rows, creation "
     "header, delimiter); all histories up to depth d0 are run, deeper ones are de-duplicated on (SHA-1 of the "
     "file bytes, fingerprint of the open handle's python state, model state).  A second world drives the "
-    "header-less Recfile/recfile.write path.  distinct_nontrivial = number of distinct canonical states."
+    "header-less Recfile/recfile.write path; a third one holds TWO files (different dtypes) with interleaved "
+    "events and reads in the middle of the history.  Every history is replayed in a forked child with pristine "
+    "module state.  distinct_nontrivial = number of distinct canonical states."
 )
 ASSUMPTIONS = [
     "chunk contents are a function of (first row index, k), so the file content is a function of the model state",
@@ -110,6 +112,8 @@ def main(ctx):
                     ops.append(("open", "w", None))
                     ops.append(("open", "w", ","))
                     ops.append(("open", "r+", None))
+                if m["exists"] and not m["empty"] and not m.get("justread"):
+                    ops.append(("read",))
             else:
                 if m["n"] <= NMAX:
                     for k in KS:
@@ -251,8 +255,13 @@ def main(ctx):
                         sf.close()
                         sf = None
                         h = None
+                    elif k == "read":
+                        # a read in the middle of a history: whatever it caches becomes part of the state
+                        if not last and check_file(hist[:i + 1], rec, fn, m) is not True:
+                            return None
                     else:
                         raise ValueError(op)
+                    m["justread"] = k == "read"
                     if last and h is None and m["exists"] and not m["empty"]:
                         if check_file(hist, rec, fn, m) is not True:
                             return None
@@ -284,7 +293,7 @@ def main(ctx):
 
     depth = ctx.pick(5, 9)
     for dk in ctx.pick(["A"], ["A", "B"]):
-        ctx.histories("sfile-world(%s)" % dk, [()], make_world(dk), depth=depth, nodedup_depth=2,
+        ctx.histories("sfile-world(%s)" % dk, [()], pristine(make_world(dk)), depth=depth, nodedup_depth=2,
                       bounds=dict(depth=depth, nmax=NMAX, delims=[repr(d) for d in DELIMS], dtype=str(DTS[dk]),
                                   bad_kinds=BADKINDS, headers=len(HDRS)))
 
@@ -294,7 +303,7 @@ def main(ctx):
         (("open", "w", None), ("hwrite", 2, 2), ("hwrite", 1, 0), ("hclose",)),
         (("create", None, 1, 1), ("open", "r+", None), ("hwrite", 2, 0), ("hclose",)),
     ]
-    ctx.histories("sfile-world(seeded)", seeds, make_world("A"), depth=ctx.pick(6, 8), nodedup_depth=4,
+    ctx.histories("sfile-world(seeded)", seeds, pristine(make_world("A")), depth=ctx.pick(6, 8), nodedup_depth=4,
                   bounds=dict(seeds=len(seeds)))
 
     # ------------------------------------------------- world 2: header-less recfile
@@ -388,5 +397,156 @@ def main(ctx):
                 ops.append(("rclose",))
         return key, tuple(ops)
 
-    ctx.histories("recfile-world", [()], execute2, depth=ctx.pick(5, 7), nodedup_depth=2,
+    ctx.histories("recfile-world", [()], pristine(execute2), depth=ctx.pick(5, 7), nodedup_depth=2,
                   bounds=dict(nmax=NMAX))
+
+    # ------------------------------------------------- world 3: two files alive at the same time
+    # Two paths (file 0 holds dtype A, file 1 dtype B), each with at most one open SFile handle, events on
+    # either file in any interleaving.  Every history runs in a forked child with pristine module state:
+    # header dicts, sizes or handles kept at class/module level (shared mutable defaults) would leak from
+    # one file into the other.  After the last event every file without an open handle is read back and
+    # compared with its own model.
+    from mc.util import in_child, module_state
+    FDK = ("A", "B")
+
+    def check_file2(fn, dk, m):
+        data, hdr = sfile.read(fn, header=True)
+        exp = chunk(dk, 0, m["n"])
+        if m["delim"] is not None:
+            exp = exp.astype(native_descr(DTS[dk]))
+        if hdr.get("_SIZE") != m["n"]:
+            return "_SIZE=%r but %d rows were written" % (hdr.get("_SIZE"), m["n"])
+        msg = T.same_table(data, exp)
+        if msg:
+            return "content is not the concatenation of the writes to this file: %s" % msg
+        user = {k: v for k, v in hdr.items() if not k.startswith("_")}
+        if not T.teq(user, m["hdr"] or {}):
+            return "user header %r, given at creation %r" % (user, m["hdr"])
+        if (hdr.get("_DELIM") or None) != m["delim"]:
+            return "_DELIM %r, file created with %r" % (hdr.get("_DELIM"), m["delim"])
+        return None
+
+    def world3_child(hist, tmp):
+        import esutil.sfile as sm
+        import esutil.recfile.Util as ru
+        fns = [os.path.join(tmp, "c03_two_%d.rec" % f) for f in (0, 1)]
+        for fn in fns:
+            if os.path.exists(fn):
+                os.unlink(fn)
+        ms = [dict(exists=False, delim=None, hdr=None, n=0, empty=False) for _ in (0, 1)]
+        hs = [None, None]
+        sfs = [None, None]
+        msg = None
+        try:
+            for op in hist:
+                k, f = op[0], op[1]
+                fn, dk, m = fns[f], FDK[f], ms[f]
+                if k == "create":
+                    _, _, delim, hk, nk = op
+                    sfile.write(fn, chunk(dk, 0, nk), delim=delim, header=HDRS[hk])
+                    m.update(exists=True, delim=delim, hdr=HDRS[hk], n=nk, empty=False)
+                elif k == "append":
+                    nk = op[2]
+                    sfile.write(fn, chunk(dk, m["n"], nk), append=True)
+                    if not m["exists"]:
+                        m.update(exists=True, delim=None, hdr=None, n=nk)
+                    else:
+                        m["n"] += nk
+                elif k == "open":
+                    mode = op[2]
+                    sfs[f] = sfile.SFile(fn, mode)
+                    if mode == "w" or not m["exists"]:
+                        hs[f] = dict(mode="w", first=True)
+                        m.update(exists=True, delim=None, hdr=None, n=0, empty=True)
+                    else:
+                        hs[f] = dict(mode="r+", first=False)
+                elif k == "hwrite":
+                    _, _, nk, hk = op
+                    sfs[f].write(chunk(dk, m["n"], nk), header=HDRS[hk])
+                    if hs[f]["first"]:
+                        m["hdr"] = HDRS[hk]
+                    hs[f]["first"] = False
+                    m["n"] += nk
+                    m["empty"] = False
+                elif k == "hclose":
+                    sfs[f].close()
+                    sfs[f] = None
+                    hs[f] = None
+                elif k == "read":
+                    # a read in the middle of the history (anything it caches is then part of the state)
+                    r = check_file2(fn, dk, m)
+                    if r:
+                        msg = "file %d (dtype %s) read after %r: %s" % (f, dk, hist[:-1], r)
+                        break
+                else:
+                    raise ValueError(op)
+            for f in (0, 1):
+                if msg:
+                    break
+                if hs[f] is None and ms[f]["exists"] and not ms[f]["empty"]:
+                    r = check_file2(fns[f], FDK[f], ms[f])
+                    if r:
+                        msg = "file %d (dtype %s): %s" % (f, FDK[f], r)
+                        break
+        except Exception as e:
+            import traceback
+            tb = traceback.extract_tb(e.__traceback__)[-1]
+            msg = "operation %r raised %s: %s [at %s:%d]" % (hist[-1] if hist else None, type(e).__name__, str(e)[:200],
+                                                             os.path.basename(tb.filename), tb.lineno)
+        hstates = []
+        for f in (0, 1):
+            if sfs[f] is not None:
+                hstates.append(fingerprint({k: v for k, v in sfs[f].__dict__.items() if k not in ("_robj", "_filename")},
+                                           {k: v for k, v in sfs[f]._robj.__dict__.items() if k not in ("robj", "filename")}))
+                try:
+                    sfs[f].close()
+                except Exception:
+                    pass
+            else:
+                hstates.append(None)
+        raws = []
+        for fn in fns:
+            raws.append(hashlib.sha1(open(fn, "rb").read()).hexdigest() if os.path.exists(fn) else None)
+            if os.path.exists(fn):
+                os.unlink(fn)
+        key = (tuple(raws), tuple(hstates), module_state(sm, ru),
+               tuple((m["exists"], m["delim"], repr(m["hdr"]), m["n"], m["empty"]) for m in ms),
+               tuple(None if h is None else (h["mode"], h["first"]) for h in hs))
+        ops = []
+        nmax3 = 4
+        for f in (0, 1):
+            m, h = ms[f], hs[f]
+            if h is None:
+                if m["n"] <= nmax3:
+                    for delim in (None, ","):
+                        for hk in (0, 1):
+                            ops.append(("create", f, delim, hk, 1))
+                    if not (m["exists"] and m["empty"]):
+                        ops.append(("append", f, 2))
+                    ops.append(("open", f, "w"))
+                    if not (m["exists"] and m["empty"]):
+                        ops.append(("open", f, "r+"))
+                if m["exists"] and not m["empty"] and not (hist and hist[-1] == ("read", f)):
+                    ops.append(("read", f))
+            else:
+                if m["n"] <= nmax3:
+                    ops.append(("hwrite", f, 1, 0))
+                    ops.append(("hwrite", f, 2, 2))
+                if not h["first"]:
+                    ops.append(("hclose", f))
+        return msg, key, tuple(ops)
+
+    def execute3(hist, rec):
+        st, out = in_child(lambda: world3_child(hist, rec.tmp))
+        if st != "ok":
+            rec.fail(hist, "history could not be executed: %s" % (out,))
+            return None
+        msg, key, ops = out
+        if msg:
+            rec.fail(hist, msg)
+            return None
+        return key, ops
+
+    ctx.histories("two-files-world", [()], execute3, depth=ctx.pick(4, 6), nodedup_depth=2,
+                  bounds=dict(files=2, dtypes=list(FDK), rows_per_file_max=6,
+                              isolation="every history in a forked child with pristine module state"))
